@@ -34,6 +34,64 @@ CLAIMS: dict[str, dict] = {
         "Not decided: byte-level protobuf encoding.",
         design_ref="DESIGN.md §5 C03",
     ),
+    "C04": dict(
+        technique="foreign-producer streams from a descriptor-built reference encoder (validated by the reference decoder) pushed through the parser source; descriptor-driven exhaustiveness of dispatch tables",
+        text="A reference encoder enumerates legal producer choices (4 eviction policies, zero/explicit/alternating ids, 3 IRI split strategies, repeated terms on/off, lazy/early/redundant entries, 4 framings incl. empty frames with metadata and repeated options rows, "
+        "delimited or not, namespaces) over statement sequences that force hits, misses and evictions; every stream is proven valid by jstat.refdec and must decode through pyjelly's parser source to the statements it denotes. Row/term dispatch tables are exhaustive w.r.t. the descriptor. "
+        "Not decided: an actual third-party encoder end to end.",
+        design_ref="DESIGN.md §5 C04",
+    ),
+    "C07": dict(
+        technique="differential constant propagation over frame partitionings of one abstract row sequence; loop-shape / linear-use rules on grouped parser traces; frame-count rule on grouped writer traces",
+        text="The same row sequence cut six ways (single frame, per row, pairs, empty/metadata frames around halves, options alone, between every entry and its use) parses identically through the flat parsers of both integrations; grouped parsing yields one sink per frame in order "
+        "with that frame's metadata visible; grouped writing with grouped logical types emits one frame per non-empty sink/graph. Not decided: all re-partitionings of concrete streams.",
+        design_ref="DESIGN.md §5 C07",
+    ),
+    "C10": dict(
+        technique="laziness/order rule on parser traces with a frame source that ends or fails after j frames",
+        text="protobuf's rejection of a torn frame is trusted; decided is that the four streaming parsers hand the caller exactly the statements of the j completely delivered frames, in order, before ending or raising (no materialisation, no read-ahead), for j in {0,1,2,4} x EOF/torn x 3 physical types.",
+        design_ref="DESIGN.md §5 C10",
+    ),
+    "C11": dict(
+        technique="producer/consumer interleaving observed on abstract traces (instrumented input generator, frame-by-frame consumer); constant propagation of frame_size into the flow",
+        text="For flat delimited serialisation through 4 entry points x frame sizes {1,3,6,250} x explicit/inferred logical type: fewer than frame_size rows pending at every pull from the second statement on, each frame reaches the caller before more input is consumed, "
+        "no read-ahead, the flow's frame_size equals options.frame_size; parsers yield all statements of delivered frames before requesting the next frame. Not decided: real thread schedules and timing.",
+        design_ref="DESIGN.md §5 C11",
+    ),
+    "C12": dict(
+        technique="whole-package ownership and effect analysis: shared-heap tagging on traces, syntactic sweep of all functions, instance-state disjointness, default-value table, nondeterminism taint",
+        text="No import-time object is mutated on any serialise/parse trace (both integrations, all entry points) nor by any function syntactically; two instances of each of 32 stateful constructions share no mutable object; all 71 parameter/field defaults are immutable or factories; "
+        "no hash/id/random/time/set-iteration/non-deterministic SerializeToString on the paths; the metadata map is never written. Not decided: rdflib's iteration order, protobuf internals, C-level parallelism.",
+        design_ref="DESIGN.md §5 C12",
+    ),
+    "C15": dict(
+        technique="sibling cross-check of extracted semantics: six parsers on the same abstract frames; frames of the two serializers on corresponding symbolic data",
+        text="For RDF 1.1 corpora over all physical types: the flat, grouped(concatenated) and to-graph parsers of both integrations return corresponding statements for the same frames; generic and rdflib serializers emit structurally identical frames for corresponding data and equal options "
+        "(generator input for all types, containers for TRIPLES). One known finding (rdflib GRAPHS writer regroups a quad generator through a Dataset). Not decided: byte equality on concrete inputs.",
+        design_ref="DESIGN.md §5 C15",
+    ),
+    "C17": dict(
+        technique="taint + dominance of input-sized allocations on parser traces; recursion-shape rule via message parent pointers; syntactic loop-progress rule",
+        text="Wall time, RSS and interpreter crashes are runtime quantities and are not decided. Decided: no allocation sized by an options-row field above 4096 happens before rejection (3 tables x 5 sizes x 4 parsers); the only recursion on the parse path descends into strict sub-messages; every while loop consumes input and the frame iterator stops at EOF.",
+        design_ref="DESIGN.md §5 C17",
+    ),
+    "C18": dict(
+        technique="undersized-table configurations pushed through the serializer source; abstract stream decoded by the reference decoder (refuse-or-correct rule)",
+        text="For enabled tables smaller than one statement needs (prefix 1..4, datatype 1..2, names 8..14 with nested quoted triples; both integrations) serialisation must raise or the stream must decode to the input; exact-size controls must succeed. "
+        "One known finding (LRU eviction cannot refuse). Not decided: which concrete statements overflow.",
+        design_ref="DESIGN.md §5 C18",
+    ),
+    "C19": dict(
+        technique="row-level audit of abstract emitted streams by the reference decoder: redundant-entry, missed-elision, missed-zero counters, graph-start count",
+        text="Over ~2100 writer configurations of both integrations: no entry row for a resident string, no term written that equals the previous statement's term in its slot, zero forms wherever the delta rule allows, one graph start per run of equal graph names. Not decided: sizes of concrete outputs.",
+        design_ref="DESIGN.md §5 C19",
+    ),
+    "C20": dict(
+        technique="exception-safety (effect) analysis on abstract traces: catch-and-continue driver, fault at every slot x cause, result judged by the reference decoder",
+        text="For 3 stream methods x both encoders x causes {unsupported term, typed literal with disabled table, short tuple} x slots {s,p,o,g,nested} x frame sizes: after the rejected statement the frames written are valid and decode to exactly the accepted statements, or the stream refuses further use. "
+        "Not decided: every position in arbitrary concrete sequences.",
+        design_ref="DESIGN.md §5 C20",
+    ),
     "C05": dict(
         technique="least fixpoint of reachable joint writer/reader lookup states (finite abstract domain up to key renaming) computed through the source of the index rules; ordering enumeration",
         text="For table sizes 1..4 (quick) / 1..6 (thorough) and each of the three index rules the closed set of reachable (LookupEncoder, LookupDecoder) states is enumerated through the real source; at every transition the emitted entry id + reference "
